@@ -241,7 +241,7 @@ def col_kind(snapshot, table_id, col_id):
     return 'unknown'
   for r in cols['id']:
     if cols['parentId'].get(r) == tref[0] and cols['colId'].get(r) == col_id:
-      return 'formula' if cols['isFormula'].get(r) else 'data'
+      return 'formula' if cols['isFormula'].get(r) == '#true' else 'data'
   return 'unknown'
 
 
@@ -278,6 +278,9 @@ def judge_state_diff(ref, obs, full_log, upto):
     real = kept
   if not real:
     return None, labels
+  # representative cell: prefer metadata / data cells over formula cells
+  rank = {'meta': 0, 'data': 1, 'manualSort': 1, 'unknown': 2, 'helper': 3, 'formula': 4}
+  real.sort(key=lambda x: rank.get(col_kind(ref, x[0], x[1]), 2))
   t, c, r, va, vb = real[0]
   tcat = t if t.startswith('_grist_') else 'usertable'
   kind = col_kind(ref, t, c)
